@@ -261,6 +261,7 @@ def run(ctx):
     _access_labels(ctx)
     _accessible_accessors(ctx)
     _command_file_lines(ctx)
+    _member_class_access_travels(ctx)
     # ------------------------------------------------------------ R04.3
     _siblings(ctx)
     # ------------------------------------------------------------ R04.4
@@ -727,3 +728,54 @@ def _command_file_lines(ctx):
             [y for y in walk(lp.get("c") or {}) if y.get("k") == "call" and callee_short(y) == "getline"]
     ctx.ob("R04.11", "read_command_file|loop-tests-the-read", bool(fails) and not any(callee_short(y) == "good" for y in fails), f.loc(lp),
            "the loop is controlled by the outcome of the read (fail()/stream-as-bool/getline in the condition), not by good()")
+
+
+def _member_class_access_travels(ctx):
+    """R04.13: the builder decides whether a class may be exported from the visibility of its type DECLARATION
+    (TypeManager::involves_protected: `type->_declaration->_vis > V_public`).  For `class Outer { private: class Inner; };
+    class Outer::Inner { __published: ... };` that declaration is added to the namespace scope and would get the
+    namespace's visibility.  Two statements make the private member class private: define_extension_type(), when the
+    definition replaces the forward declaration in a CLASS scope, copies the forward declaration's _vis to the new type;
+    add_declaration() gives a type declaration the narrower of the scope's visibility and the declared type's own.
+    (F-C04d: neither existed; Outer::Inner::leak() was exported with a wrapper.)"""
+    db = ctx.db
+    ctx.rule("R04.13", "define_extension_type copies the replaced forward declaration's _vis to the defining type (in a class scope); add_declaration raises a type declaration's _vis to the declared type's own when that is narrower")
+    fd = db.fn("CPPScope::define_extension_type")
+    p0 = _param(fd, 0)
+    carried = []
+    for y in fd.walk():
+        t = assigned_target(y)
+        if not t:
+            continue
+        tgt, val = strip_casts(peel(t[0])), strip_casts(peel(t[1]))
+        if tgt is not None and tgt.get("k") == "mem" and (tgt.get("n") or "").endswith("::_vis") and (local_ref(tgt.get("b")) or {}).get("d") == p0 and \
+           val is not None and val.get("k") == "mem" and (val.get("n") or "").endswith("::_vis") and (local_ref(val.get("b")) or {}).get("d") not in (None, p0):
+            carried.append(y)
+    in_class = G.edges_where(fd, lambda atom, truth: (field_of(strip_casts(peel(atom))) or "").endswith("::_struct_type") and truth) + \
+        G.edges_where(fd, lambda atom, truth: bool(G.cmp_atom(atom)) and "_struct_type" in show(atom) and (G.cmp_atom(atom)[0] == ("!=" if truth else "==")))
+    ok = bool(carried) and bool(in_class) and all(G.gated(fd, y, in_class) for y in carried)
+    ctx.ob("R04.13", "define_extension_type|forward-declaration-access-carried", ok, fd.loc(carried[0]) if carried else fd.loc(),
+           "the defining type takes the _vis of the forward declaration it replaces, in a class scope" if ok else "the access of a replaced forward declaration is dropped")
+    fa = db.fn("CPPScope::add_declaration")
+    d0 = _param(fa, 0)
+    sets = [y for y in fa.walk() if assigned_target(y) and (strip_casts(peel(assigned_target(y)[0])) or {}).get("k") == "mem" and
+            (strip_casts(peel(assigned_target(y)[0])).get("n") or "").endswith("::_vis") and (local_ref(strip_casts(peel(assigned_target(y)[0])).get("b")) or {}).get("d") == d0]
+    own = [y for y in sets if "_type" in show(assigned_target(y)[1]) and "_vis" in show(assigned_target(y)[1])]
+
+    def narrower(atom, truth):
+        ca = G.cmp_atom(atom)
+        if not ca:
+            return False
+        op, u, v = ca
+        op = op if truth else G.NEG[op]
+        su, sv = show(u) if u is not None else "", show(v) if v is not None else ""
+        if "_type" in su and "_vis" in su and "_vis" in sv and "_type" not in sv:
+            return op == ">"
+        if "_type" in sv and "_vis" in sv and "_vis" in su and "_type" not in su:
+            return op == "<"
+        return False
+    e = G.edges_where(fa, narrower)
+    ok = bool(own) and bool(e) and all(G.gated(fa, y, e) for y in own) and len(sets) >= 2
+    ctx.ob("R04.13", "add_declaration|type-declaration-keeps-the-narrower-access", ok, fa.loc(own[0]) if own else fa.loc(),
+           "a type declaration's _vis becomes the declared type's own _vis where that is greater (narrower)" if ok else
+           "a type declaration always takes the scope's current visibility")
